@@ -25,7 +25,7 @@ def H(*steps):
     for st in steps:
         d = {"act": st[0], "name": [], "name2": [], "ref": [], "pat": [], "lsub": False}
         if st[0] in ("List", "Lsub"):
-            d.update(ref=ch(st[1]), pat=ch(st[2]), lsub=st[0] == "Lsub")
+            d.update(ref=ch(st[1]), pat=ch(st[2]), pats=[ch(x) for x in st[2:]], lsub=st[0] == "Lsub")
         elif st[0] == "Rename":
             d.update(name=ch(st[1]), name2=ch(st[2]))
         elif st[0] != "Restart":
@@ -34,9 +34,21 @@ def H(*steps):
     return out
 
 DIRECTED = {
+    # RFC 5258 multi-pattern LIST over names that share prefixes, suffixes and substrings with the patterns
+    "multi_pattern_list": H(
+        ("Create", "work"), ("Create", "work/sub"), ("Create", "workshop"), ("Create", "misc/old"), ("Create", "old"),
+        ("Create", "cold"), ("Create", "homework"),
+        ("List", "", "work", "old"), ("List", "", "old", "work"), ("List", "", "work", "misc", "old"),
+        ("List", "", "%", "work/%"), ("List", "", "wor", "ol"), ("List", "misc/", "old", "%"),
+        ("Subscribe", "work"), ("Subscribe", "misc/old"), ("Lsub", "", "*"), ("List", "", "work", "old")),
+    # a parent whose only child was renamed away is a leaf again
+    "child_renamed_away_then_delete_parent": H(
+        ("Create", "top/kid"), ("Rename", "top/kid", "elsewhere"), ("List", "", "*"), ("Delete", "top"), ("List", "", "*"),
+        ("Create", "p/q/r"), ("Rename", "p/q", "s"), ("Delete", "p"), ("List", "", "*"), ("Restart",), ("List", "", "*")),
     "rename_beneath_itself_and_missing_superior": H(
         ("Create", "a/c"), ("Rename", "a", "a/b"), ("List", "", "*"), ("Rename", "a/c", "x/y"),
-        ("List", "", "*"), ("List", "x/", "%"), ("Rename", "nosuch", "z"), ("Rename", "x", "inbox"),
+        ("List", "", "*"), ("List", "x/", "%"), ("List", "", "x", "a"), ("List", "", "%", "x/%"),
+        ("Rename", "nosuch", "z"), ("Rename", "x", "inbox"),
         ("Rename", "x", "INBOX"), ("List", "", "*")),
     "inbox_in_any_case": H(
         ("Subscribe", "INBOX"), ("Delete", "INBOX"), ("Delete", "inbox"), ("Delete", "InBoX"),
@@ -63,7 +75,20 @@ def _run(job):
         import traceback
         return name, None, traceback.format_exc()[-1500:]
 
-def run(ck, prefixes, *, ns_ops, sim, probes_n, probe_sample):
+COVER_CFG = """SPECIFICATION CSpec
+CONSTANTS
+  NameSet <- NamesSmall
+  RefSet <- Refs
+  PatSet <- Pats
+  MaxOps = {ops}
+VIEW {view}
+PROPERTY Edges
+PROPERTY PropertyLayer
+CHECK_DEADLOCK FALSE
+"""
+
+
+def run(ck, prefixes, *, ns_ops, sim, probes_n, probe_sample, cover=None):
     """ns_ops: MaxOps for the exhaustive Namespace run; sim: (num, depth) simulated histories (0 = none);
     probes_n: MaxComps of the C09 probe space (0 = none); probe_sample: number of probes to run (None = all)."""
     from harness import mailreplay, nsdriver
@@ -89,10 +114,31 @@ def run(ck, prefixes, *, ns_ops, sim, probes_n, probe_sample):
             elif r.rc != 0:
                 raise RuntimeError(f"TLC simulate failed on Namespace: {r.error}")
             for i, beh in enumerate(mailreplay.load_behaviours(pre)):
-                steps = [{k: st["last"][k] for k in ("act", "name", "name2", "ref", "pat", "lsub")} for st in beh[1:]]
+                steps = [{k: st["last"][k] for k in ("act", "name", "name2", "ref", "pat", "pats", "lsub")} for st in beh[1:]]
                 jobs.append(("history", f"sim{i}", steps, ck.seed * 1000 + i))
             for name, steps in DIRECTED.items():
                 jobs.append(("history", name, steps, 1))
+        if cover:
+            # one implementation test per accepted transition of the model's quotient graph
+            view, ops = cover
+            r = tlc.run("NamespaceCover", COVER_CFG.format(ops=ops, view=view), workers=1, timeout=1800)
+            ck.add_tlc(f"NamespaceCover:{view}:{ops}", r)
+            if r.violated:
+                ck.violation(prefixes[0] + "ModelViolatesProperty", act="model", detail=f"NamespaceCover.tla: {r.violated}",
+                             replay_obj={"tlc": r.out[-5000:]})
+            elif r.rc != 0:
+                raise RuntimeError(f"TLC failed on NamespaceCover: {r.error}")
+            if tlc.PRINT_ERRORS:
+                raise RuntimeError(f"unparsed TLC output: {tlc.PRINT_ERRORS[:2]}")
+            edges = [p[1] for p in r.prints if p and p[0] == "EDGE"]
+            ck.cov["cover_edges"] = len(edges)
+            tail = H(("List", "", "*"), ("Lsub", "", "*"))
+            for i, hist in enumerate(edges):
+                steps = []
+                for st in hist:
+                    steps.append({"act": st["act"], "name": list(st["name"]), "name2": list(st["name2"]),
+                                  "ref": [], "pat": [], "lsub": False})
+                jobs.append(("history", f"edge{i}", steps + tail, 1))
         if probes_n:
             r = tlc.run("NsProbes", PROBE_CFG.format(n=probes_n), workers=1, timeout=600)
             if r.rc != 0:
